@@ -11,12 +11,20 @@
      run_ops           a history of (operation, storage-fault plan) over ANY cluster handler
      h2_op / h2_hist / h2_history   "no install --replace while a revision is deployed" (K1)
      pruned h m        the revisions Storage.Create deletes for MaxHistory = S m
+     fail_ok2 / fail_ok3   the storage writes an injected failure may hit: any but an Update with payload
+                       status superseded / superseded, deployed or uninstalled (the final status writes)
+     fail_hits_only F o f l k   in the run of operation o from ledger l and cluster state k under fault
+                       plan f, the injected write failure, if it fires at all, fires at an effect in F
+     h1_hist / h1_history   fail_hits_only fail_ok2 for every operation of a history (narrow H1)
+     honest dresp      a storage Create / Delete that failed does not answer SOk
+     one_deployed_highest l   exactly one record of l is deployed and it has the highest revision
    Quantification: every cluster handler [kh] (responses and state are arbitrary), every
    storage-fault plan [f] (n-th write fails, crash before the n-th mutating effect), every
    history; no bound on any length. *)
 From Coq Require Import List String Bool Arith.
 From Helm Require Import Engine.Types Engine.Eff Engine.Ops Engine.Cluster Engine.Seq Engine.SeqProofs
-  Engine.LedgerBase Engine.LedgerPieces Engine.LedgerRev Engine.LedgerDep Engine.LedgerPrune Engine.LedgerEx.
+  Engine.LedgerBase Engine.LedgerPieces Engine.LedgerRev Engine.LedgerDep Engine.LedgerPrune Engine.LedgerRecover
+  Engine.LedgerEx.
 Import ListNotations.
 Local Open Scope string_scope.
 
@@ -89,31 +97,79 @@ Print Assumptions C01_prune_gap.
 (* ------------------------------------------------------------------ *)
 (* 2. at most one deployed revision                                     *)
 
-(* "_partial": under H1 (no injected storage-write failure; crashes anywhere and arbitrary
-   cluster behaviour are allowed) and H2 (no install --replace while a revision is deployed).
+(* "_partial": under H1 and H2.
+   H1 (narrow form): injected storage-write failures are allowed everywhere EXCEPT on a write
+   whose payload status is superseded ([h1_hist]: for every operation of the history, in its
+   actual run, the failing write - if the failure fires at all - is not such a write).  Crash
+   points anywhere and arbitrary cluster behaviour are allowed.
+   H2: no install --replace while a revision is deployed.
    Without H1 or without H2 the statement is false in the model AND in Helm (K2, K1): the two
    refutation lemmas below. *)
 Theorem C01_at_most_one_deployed_partial :
   forall (K : Type) (kh : forall e : eff, K -> K * resp e * list kev) (dresp : forall e, resp e)
          (rn ns : string) (h : list (op * sfaults)) (l : list release) (k : K),
+    honest dresp ->
     NoDup (revs l) -> ndep l <= 1 ->
-    (forall o f, In (o, f) h -> wfail f = None) ->                       (* H1 *)
+    h1_hist K kh dresp rn ns h l k ->                                    (* H1 *)
     h2_hist K kh dresp rn ns h l k ->                                    (* H2 *)
     Forall (fun r => ndep (res_led K r) <= 1) (run_ops K kh dresp rn ns h l k).
-Proof. exact run_ops_one_deployed. Qed.
+Proof. exact run_ops_one_deployed_narrow. Qed.
 Print Assumptions C01_at_most_one_deployed_partial.
+
+(* corollary, coarse H1: no injected storage-write failure at all (any [dresp]) *)
+Theorem C01_at_most_one_deployed_coarse :
+  forall (K : Type) (kh : forall e : eff, K -> K * resp e * list kev) (dresp : forall e, resp e)
+         (rn ns : string) (h : list (op * sfaults)) (l : list release) (k : K),
+    NoDup (revs l) -> ndep l <= 1 ->
+    (forall o f, In (o, f) h -> wfail f = None) ->
+    h2_hist K kh dresp rn ns h l k ->
+    Forall (fun r => ndep (res_led K r) <= 1) (run_ops K kh dresp rn ns h l k).
+Proof. exact run_ops_one_deployed. Qed.
+Print Assumptions C01_at_most_one_deployed_coarse.
 
 (* the same over the object-store cluster with out-of-band edits between operations *)
 Theorem C01_at_most_one_deployed_history_partial :
   forall (rn ns : string) (h : list hstep) (w : world),
     NoDup (revs (w_led w)) -> ndep (w_led w) <= 1 ->
-    (forall c, In (HOp c) h -> wfail (oc_sf c) = None) ->                (* H1 *)
+    h1_history rn ns h w ->                                              (* H1 *)
     h2_history rn ns h w ->                                              (* H2 *)
     Forall (fun x => ndep (w_led (fst (fst x))) <= 1) (run_history rn ns h w).
-Proof. exact history_one_deployed. Qed.
+Proof. exact history_one_deployed_narrow. Qed.
 Print Assumptions C01_at_most_one_deployed_history_partial.
 
-(* K1: H1 holds, H2 does not — install; upgrade failing in the wait; install --replace *)
+Theorem C01_at_most_one_deployed_history_coarse :
+  forall (rn ns : string) (h : list hstep) (w : world),
+    NoDup (revs (w_led w)) -> ndep (w_led w) <= 1 ->
+    (forall c, In (HOp c) h -> wfail (oc_sf c) = None) ->
+    h2_history rn ns h w ->
+    Forall (fun x => ndep (w_led (fst (fst x))) <= 1) (run_history rn ns h w).
+Proof. exact history_one_deployed. Qed.
+Print Assumptions C01_at_most_one_deployed_history_coarse.
+
+(* the narrow H1 is met by histories in which a write failure really fires: the "failed" status
+   write of a failing upgrade is lost (revision 2 stays pending-upgrade), the next upgrade is
+   refused, rollback recovers; H1 in its coarse form does not hold *)
+Example C01_narrow_h1_instance :
+  h1_history "rel" "default" wf_history (mkW [] []) /\ h2_history "rel" "default" wf_history (mkW [] []) /\
+  ~ (forall c, In (HOp c) wf_history -> wfail (oc_sf c) = None) /\
+  views wf_history = [ [(1, SDeployed)]; [(1, SDeployed); (2, SPendingUpgrade)];
+                       [(1, SDeployed); (2, SPendingUpgrade)];
+                       [(1, SSuperseded); (2, SPendingUpgrade); (3, SDeployed)] ] /\
+  outs wf_history = [OOk; OErr EOtherErr; OErr EPending; OOk].
+Proof. exact narrow_h1_instance. Qed.
+Print Assumptions C01_narrow_h1_instance.
+
+(* the final "deployed" write of install may fail as far as the invariant is concerned
+   (fail_ok2), but not for the success postcondition (fail_ok3) *)
+Example C01_narrow_h1_final_write :
+  h1_history "rel" "default" k2b_history (mkW [] []) /\ ndeps k2b_history = [0] /\
+  ~ fail_hits_only kstate (kube_handle "rel" "default") dead_resp "rel" "default" fail_ok3
+      (OpInstall fl0 1 1 [cm "a" "v1"] []) (mkSF (Some 1) None) [] (mkK [] None None false).
+Proof. exact narrow_h1_final_write. Qed.
+Print Assumptions C01_narrow_h1_final_write.
+
+(* K1: H1 holds (no write failure at all), H2 does not — install; upgrade failing in the wait;
+   install --replace *)
 Lemma C01_two_deployed_replace_refuted :
   exists h : list hstep,
     (forall c, In (HOp c) h -> wfail (oc_sf c) = None) /\
@@ -134,10 +190,13 @@ Print Assumptions C01_two_deployed_swallowed_write_refuted.
 (* ------------------------------------------------------------------ *)
 (* 3. what a successful operation leaves behind (under H1, from a well-formed ledger) *)
 
+(* H1 (narrow form) for the postcondition: the failing write, if any, is neither a
+   "superseded" write nor a final status write (payload deployed / uninstalled) *)
 Theorem C01_success_postcondition :
   forall (K : Type) (kh : forall e : eff, K -> K * resp e * list kev) (dresp : forall e, resp e)
          (rn ns : string) (f : sfaults) (o : op) (l : list release) (k : K),
-    wfail f = None ->                                                    (* H1 *)
+    honest dresp ->
+    fail_hits_only K kh dresp rn ns fail_ok3 o f l k ->                  (* H1 *)
     NoDup (revs l) -> ndep l <= 1 ->
     h2_op o l ->                                                         (* H2 *)
     let r := run_op K kh dresp rn ns o f l k in
@@ -157,8 +216,35 @@ Theorem C01_success_postcondition :
          then exists x, In x l' /\ st x = SUninstalled /\ forall r, In r l' -> rev r <= rev x
          else l' = []
      end).
-Proof. exact run_op_D. Qed.
+Proof. exact run_op_D_narrow. Qed.
 Print Assumptions C01_success_postcondition.
+
+(* corollary, coarse H1 (any [dresp]) *)
+Theorem C01_success_postcondition_coarse :
+  forall (K : Type) (kh : forall e : eff, K -> K * resp e * list kev) (dresp : forall e, resp e)
+         (rn ns : string) (f : sfaults) (o : op) (l : list release) (k : K),
+    wfail f = None ->
+    NoDup (revs l) -> ndep l <= 1 ->
+    h2_op o l ->
+    let r := run_op K kh dresp rn ns o f l k in
+    let l' := res_led K r in
+    NoDup (revs l') /\ ndep l' <= 1 /\
+    (res_out K r = OOk -> f_dry_run (op_flags o) = false ->
+     match o with
+     | OpInstall fl cid vid mani hks | OpUpgrade fl cid vid mani hks =>
+         exists x, succ_new l l' x /\ prev_superseded l l' /\
+                   chart_id x = cid /\ config_id x = vid /\ manifest x = mani /\ hooks x = hks
+     | OpRollback fl =>
+         exists x pr, succ_new l l' x /\ prev_superseded l l' /\
+                      find (fun r => Nat.eqb (rev r) (rollback_target fl l)) l = Some pr /\
+                      same_content x pr
+     | OpUninstall fl =>
+         if f_keep_history fl
+         then exists x, In x l' /\ st x = SUninstalled /\ forall r, In r l' -> rev r <= rev x
+         else l' = []
+     end).
+Proof. exact run_op_D. Qed.
+Print Assumptions C01_success_postcondition_coarse.
 
 (* a non-trivial instance meeting the hypotheses: the pruning upgrade of C01_nonvacuous *)
 Example C01_success_postcondition_instance :
@@ -170,11 +256,87 @@ Example C01_success_postcondition_instance :
 Proof. exact success_instance. Qed.
 Print Assumptions C01_success_postcondition_instance.
 
-(* without H1 "success" may leave the new record pending-install (K2) *)
+Example C01_dead_resp_is_honest : honest dead_resp.
+Proof. exact dead_resp_is_honest. Qed.
+Print Assumptions C01_dead_resp_is_honest.
+
+(* without H1 "success" may leave the new record pending-install (K2: final write of install) ... *)
 Example C01_success_needs_h1 :
   views k2b_history = [ [(1, SPendingInstall)] ] /\ outs k2b_history = [OOk].
 Proof. exact success_needs_h1. Qed.
 Print Assumptions C01_success_needs_h1.
+
+(* ... or the head "uninstalling" after uninstall --keep-history (K2: final write of uninstall) *)
+Example C01_success_needs_h1_uninstall :
+  views k2c_history = [ [(1, SDeployed)]; [(1, SUninstalling)] ] /\ outs k2c_history = [OOk; OOk].
+Proof. exact success_needs_h1_uninstall. Qed.
+Print Assumptions C01_success_needs_h1_uninstall.
+
+(* ------------------------------------------------------------------ *)
+(* 3b. crash, then recovery                                             *)
+
+(* Whatever happened before - crashes anywhere, tolerated write failures, failed operations,
+   all under H1/H2 - a later install / upgrade / rollback that reports success leaves exactly one
+   deployed revision, the highest one, and the head is no longer pending. *)
+Theorem C01_recovery :
+  forall (K : Type) (kh : forall e : eff, K -> K * resp e * list kev) (dresp : forall e, resp e)
+         (rn ns : string) (h : list (op * sfaults)) (o : op) (f : sfaults) (l : list release) (k : K),
+    honest dresp -> NoDup (revs l) -> ndep l <= 1 ->
+    h1_hist K kh dresp rn ns h l k -> h2_hist K kh dresp rn ns h l k ->
+    let le := fst (ops_end K kh dresp rn ns h l k) in
+    let ke := snd (ops_end K kh dresp rn ns h l k) in
+    fail_hits_only K kh dresp rn ns fail_ok3 o f le ke -> h2_op o le ->
+    let r := run_op K kh dresp rn ns o f le ke in
+    res_out K r = OOk -> f_dry_run (op_flags o) = false ->
+    (match o with OpUninstall _ => false | _ => true end) = true ->
+    one_deployed_highest (res_led K r) /\
+    forall last, max_rev_of (res_led K r) = Some last -> is_pending (st last) = false.
+Proof. exact recovery. Qed.
+Print Assumptions C01_recovery.
+
+(* The stuck case.  A crashed upgrade (or rollback) leaves a pending head: EVERY upgrade is then
+   refused with EPending before any write, for every flag set, fault plan and cluster; a rollback
+   that reports success is the way out. *)
+Theorem C01_pending_blocks_upgrade_until_rollback :
+  forall (K : Type) (kh : forall e : eff, K -> K * resp e * list kev) (dresp : forall e, resp e)
+         (rn ns : string) (l : list release) (last : release),
+    max_rev_of l = Some last -> is_pending (st last) = true ->
+    (forall fl cid vid mani hks f k,
+        run_op K kh dresp rn ns (OpUpgrade fl cid vid mani hks) f l k = (l, k, OErr EPending, [])) /\
+    (forall fl f k,
+        honest dresp -> NoDup (revs l) -> ndep l <= 1 ->
+        fail_hits_only K kh dresp rn ns fail_ok3 (OpRollback fl) f l k ->
+        let r := run_op K kh dresp rn ns (OpRollback fl) f l k in
+        res_out K r = OOk -> f_dry_run fl = false ->
+        one_deployed_highest (res_led K r) /\
+        forall last', max_rev_of (res_led K r) = Some last' -> is_pending (st last') = false).
+Proof. exact pending_blocks_upgrade_until_rollback. Qed.
+Print Assumptions C01_pending_blocks_upgrade_until_rollback.
+
+(* A crashed install leaves pending-install: install (even --replace) is refused with
+   ENameInUse before any write; uninstall (without keep-history) empties the history. *)
+Theorem C01_pending_blocks_install_until_uninstall :
+  forall (K : Type) (kh : forall e : eff, K -> K * resp e * list kev) (dresp : forall e, resp e)
+         (rn ns : string) (l : list release) (last : release),
+    max_rev_of l = Some last -> is_pending (st last) = true ->
+    (forall fl cid vid mani hks f k, f_dry_run fl = false ->
+        run_op K kh dresp rn ns (OpInstall fl cid vid mani hks) f l k = (l, k, OErr ENameInUse, [])) /\
+    (forall fl f k,
+        honest dresp -> NoDup (revs l) -> ndep l <= 1 ->
+        fail_hits_only K kh dresp rn ns fail_ok3 (OpUninstall fl) f l k ->
+        let r := run_op K kh dresp rn ns (OpUninstall fl) f l k in
+        res_out K r = OOk -> f_dry_run fl = false -> f_keep_history fl = false ->
+        res_led K r = []).
+Proof. exact pending_blocks_install_until_uninstall. Qed.
+Print Assumptions C01_pending_blocks_install_until_uninstall.
+
+(* crashed install; install --replace, upgrade, rollback refused; uninstall; install *)
+Example C01_crashed_install_instance :
+  views ci_history = [ [(1, SPendingInstall)]; [(1, SPendingInstall)]; [(1, SPendingInstall)];
+                       [(1, SPendingInstall)]; []; [(1, SDeployed)] ] /\
+  outs ci_history = [OCrashed; OErr ENameInUse; OErr EPending; OErr EOtherErr; OOk; OOk].
+Proof. exact crashed_install_instance. Qed.
+Print Assumptions C01_crashed_install_instance.
 
 (* ------------------------------------------------------------------ *)
 (* 4. pruning: Storage.Create with MaxHistory = S m                      *)
@@ -193,8 +355,34 @@ Theorem C01_prune_run :
     dead s' = false /\
     if has_rev (rev r) kept then e = SExists /\ led s' = kept
     else e = SOk /\ led s' = (kept ++ [r])%list.
-Proof. exact storage_create_prune_run. Qed.
+Proof. exact prune_run_thm. Qed.
 Print Assumptions C01_prune_run.
+
+(* (a') with ANY crash point: if the process dies in Storage.Create, a PREFIX of [pruned h m] is
+        gone and nothing else changed (the new record is missing); otherwise the full result *)
+Theorem C01_prune_crash :
+  forall (K : Type) (kh : forall e : eff, K -> K * resp e * list kev) (dresp : forall e, resp e)
+         (f : sfaults),
+    wfail f = None ->
+    forall (r : release) (m : nat) (s : rstate K),
+    dead s = false -> NoDup (revs (led s)) ->
+    let h := led s in
+    let kept := remove_all (pruned h m) h in
+    let s' := fst (run K kh dresp f (storage_create r (S m)) s) in
+    let e := snd (run K kh dresp f (storage_create r (S m)) s) in
+    if dead s' then exists n, led s' = remove_all (firstn n (pruned h m)) h
+    else if has_rev (rev r) kept then e = SExists /\ led s' = kept
+    else e = SOk /\ led s' = (kept ++ [r])%list.
+Proof. exact prune_crash_thm. Qed.
+Print Assumptions C01_prune_crash.
+
+(* ... so every record missing after an interrupted run was selected for deletion: by
+   C01_prune_spec it is not the deployed one and is older than every kept non-deployed one *)
+Theorem C01_prune_crash_only_selected :
+  forall (h : list release) (m n : nat) (x : release),
+    In x h -> ~ In x (remove_all (firstn n (pruned h m)) h) -> In (rev x) (pruned h m).
+Proof. exact prune_prefix_missing. Qed.
+Print Assumptions C01_prune_crash_only_selected.
 
 (* (b) what the choice guarantees *)
 Theorem C01_prune_spec :
